@@ -5,12 +5,12 @@
                'dlist_move_sorted', 'dlist_size', 'dlist_size_reversed', 'dlist_in', 'dlist_check', 'dlist_check_reversed', 'dlist_is_correct',
                'dlist_empty', 'dlist_for_each', 'dlist_for_each_reverse', 'dlist_for_each_entry', 'dlist_for_each_entry_reverse',
                'dlist_first_entry', 'dlist_last_entry', 'dlist_next_entry', 'dlist_prev_entry', 'dlist_entry', 'mcast_out'],
- 'clauses': 'sequence level: after one real operation the real dlist_for_each / dlist_for_each_entry from any observer node yields exactly the sequence of a reference array list (insert after/before, erase, splice, replace, sorted insert with an uninterpreted comparator), the reverse macros yield its reverse, dlist_size, dlist_size_reversed, dlist_check(_reversed), dlist_is_correct, dlist_empty and dlist_in agree with it',
- 'params': {'OP': [0, 1, 2, 3, 4, 5, 6, 7], 'C01_K': [5]},
+ 'clauses': 'sequence level: after one real operation the real dlist_for_each / dlist_for_each_entry from any observer node yields exactly the sequence of a reference array list (insert after/before, erase, splice, replace, sorted insert with an uninterpreted comparator), the reverse macros yield its reverse, dlist_size, dlist_size_reversed, dlist_check(_reversed), dlist_is_correct, dlist_empty and dlist_in agree with it (VIEW 0: node macros, sizes, emptiness, membership; VIEW 1: entry macros, dlist_check*, dlist_is_correct - two runs per operation to stay in the quick tier)',
+ 'params': {'OP': [0, 1, 2, 3, 4, 5, 6, 7], 'VIEW': [0, 1], 'C01_K': [5]},
  'params_thorough': {'C01_K': [5, 6]},
  'unwind': 8,
  'kf': ['C01_dlist_move_self'],
- 'kf_probe_case': {'C01_dlist_move_self': {'OP': 4}},
+ 'kf_probe_case': {'C01_dlist_move_self': {'OP': 4, 'VIEW': 0}},
  'defines': ['C01_ENTRY'],
  'assumptions': ['dlist_add*: lnk is not a member of a ring other than its own singleton ring (no other ring member points at it) - inserting a still-linked node is the documented misuse of the C API; re-insertion of linked nodes is covered by dlist_move*',
                  'sequence-level units: the observer node (list head) is not the node being inserted / moved (every ring that contains another node is observed from that node; singleton rings are checked by the local units)'],
@@ -165,6 +165,7 @@ C01_NO_UBSAN_NULL void harness(void)
     struct c01_entry *pos;
     int k;
 
+#if VIEW == 0
     k = 0;
     dlist_for_each(it, H)
     {
@@ -181,6 +182,11 @@ C01_NO_UBSAN_NULL void harness(void)
     }
     __CPROVER_assert(k == 0, "dlist_for_each_reverse yields the whole reversed reference sequence");
 
+    __CPROVER_assert(dlist_size(H) == r.len, "dlist_size agrees with the reference list");
+    __CPROVER_assert(dlist_size_reversed(H) == r.len, "dlist_size_reversed agrees with the reference list");
+    __CPROVER_assert((dlist_empty(H) != 0) == (r.len == 0), "dlist_empty agrees with the reference list");
+    __CPROVER_assert((dlist_in(N_(m), H) != 0) == (ref_find(&r, m) >= 0), "dlist_in agrees with the reference list");
+#else
     k = 0;
     dlist_for_each_entry(pos, H, lnk)
     {
@@ -197,13 +203,10 @@ C01_NO_UBSAN_NULL void harness(void)
     }
     __CPROVER_assert(k == 0, "dlist_for_each_entry_reverse yields the whole reversed reference sequence");
 
-    __CPROVER_assert(dlist_size(H) == r.len, "dlist_size agrees with the reference list");
-    __CPROVER_assert(dlist_size_reversed(H) == r.len, "dlist_size_reversed agrees with the reference list");
-    __CPROVER_assert((dlist_empty(H) != 0) == (r.len == 0), "dlist_empty agrees with the reference list");
-    __CPROVER_assert((dlist_in(N_(m), H) != 0) == (ref_find(&r, m) >= 0), "dlist_in agrees with the reference list");
     /* dlist_check(fnd, count): number of other nodes in the ring, or -1 when count steps do not close it */
     __CPROVER_assert(dlist_check(H, count) == (count > r.len ? r.len : -1), "dlist_check agrees with the reference list");
     __CPROVER_assert(dlist_check_reversed(H, count) == (count > r.len ? r.len : -1), "dlist_check_reversed agrees with the reference list");
     __CPROVER_assert(dlist_is_correct(H), "dlist_is_correct holds");
+#endif
     CANARY("dl_seq end reachable");
 }
